@@ -49,9 +49,9 @@ Step(kind) ==
           ELSE wr' = [y |-> wr.y, a0 |-> s.a0, color |-> s.color] /\ syms' = Append(syms, s.sym)
   /\ UNCHANGED <<img, blackis1, phase>>
 
-APass       == Step("p")
-AVertical   == Step("v")
-AHorizontal == Step("h")
+APass       == phase = "run" /\ Step("p")
+AVertical   == phase = "run" /\ Step("v")
+AHorizontal == phase = "run" /\ Step("h")
 AEndOfBlock == /\ phase = "run" /\ wr.y = H + 1
                /\ phase' = "done"
                /\ UNCHANGED <<img, blackis1, wr, rd, syms>>
